@@ -3,7 +3,9 @@
 let split c s = String.split_on_char c s
 
 exception Unloadable
-type srec = { extra : bool; hm : hmod; imports : (n list * n list option) list }
+type srec = { extra : bool; hm : hmod; imports : (n list * n list option) list;
+              suborder : int list;                                   (* submodule numbers in includes-array order *)
+              deps : ((n list * n list option) * bool) list }        (* imports with ^a (false) / ^d (true) *)
 
 let parse_feat s =
   match split ':' s with
@@ -12,12 +14,15 @@ let parse_feat s =
 
 let parse_group g = if g = "" then [] else List.map parse_feat (split '+' g)
 
-let parse_import s =
-  let s = (match String.index_opt s '^' with Some i -> String.sub s 0 i | None -> s) in
-  match split '@' s with
-  | [n] -> (unhex n, None)
-  | [n; r] -> (unhex n, Some (unhex r))
-  | _ -> failwith "import"
+let parse_import_k s =
+  let s, kind = (match String.index_opt s '^' with
+                 | Some i -> (String.sub s 0 i, Some (String.sub s (i + 1) (String.length s - i - 1)))
+                 | None -> (s, None)) in
+  let imp = (match split '@' s with
+    | [n] -> (unhex n, None)
+    | [n; r] -> (unhex n, Some (unhex r))
+    | _ -> failwith "import") in
+  (imp, kind)
 
 let parse_rec (field : string) : srec =
   let extra = String.length field > 0 && field.[0] = '+' in
@@ -29,6 +34,7 @@ let parse_rec (field : string) : srec =
       let groups = List.map parse_group (split ';' gs) in
       (* with a submodule graph the feature arrays follow the includes array that the model computes; a graph that
          the model refuses, or an enabled feature in a submodule that is never loaded, makes the record unloadable *)
+      let suborder = ref (List.init (max 0 (List.length groups - 1)) (fun k -> k + 1)) in
       let groups = (match subg with
         | None -> groups
         | Some g ->
@@ -42,6 +48,7 @@ let parse_rec (field : string) : srec =
              | Err _ -> raise Unloadable
              | Ok order ->
                  let live = List.map int_of_nat order in
+                 suborder := live;
                  List.iteri (fun k grp -> if k > 0 && not (List.mem k live) && List.exists (fun f -> f.f_en) grp
                                           then raise Unloadable) groups;
                  List.hd groups :: regroup groups order)) in
@@ -49,7 +56,12 @@ let parse_rec (field : string) : srec =
       { extra;
         hm = { h_name = unhex nm; h_rev = (if rv = "-" then None else Some (unhex rv)); h_impl = (im = "1");
                h_feats = fs; h_subs = subs };
-        imports = if is = "" then [] else List.map parse_import (split '+' is) }
+        imports = (if is = "" then [] else List.map (fun x -> fst (parse_import_k x)) (split '+' is));
+        suborder = !suborder;
+        deps = (if is = "" then [] else
+                List.filter_map (fun x -> match parse_import_k x with
+                                          | (i, Some "d") -> Some (i, true) | (i, Some _) -> Some (i, false) | _ -> None)
+                  (split '+' is)) }
   | _ -> failwith "rec"
 
 let show_feat f = hex f.f_name ^ ":" ^ (if f.f_en then "1" else "0")
@@ -70,13 +82,18 @@ let in_ctx recs = List.map (fun r -> r.hm) (List.filter (fun r -> not r.extra) r
 (* yang-library part *)
 let bytes_of_string (s : string) : n list = List.init (String.length s) (fun i -> n_of_int (Char.code s.[i]))
 let ymod_of (r : srec) : ymod =
-  { y_mod = r.hm; y_ns = bytes_of_string "urn:yl:" @ r.hm.h_name; y_imports = r.imports }
+  { y_mod = r.hm; y_ns = bytes_of_string "urn:yl:" @ r.hm.h_name; y_imports = r.imports;
+    (* submodule k of module n is n-s<k>; it carries the revision of the module *)
+    y_subs = List.map (fun k -> (r.hm.h_name @ bytes_of_string (Printf.sprintf "-s%d" k), r.hm.h_rev)) r.suborder;
+    y_deps = r.deps }
 let hexl l = String.concat "+" (List.map hex l)
+let show_subs l = String.concat "+" (List.map (fun (nm, rv) -> hex nm ^ "@" ^ (match rv with None -> "-" | Some r -> hex r)) l)
 let show_entries (y : yl) : string =
-  let ms = List.map (fun e -> Printf.sprintf "m:%s,%s,%s,%s,%s" (hex e.ym_name)
+  let ms = List.map (fun e -> Printf.sprintf "m:%s,%s,%s,%s,%s,%s" (hex e.ym_name)
                         (match e.ym_rev with None -> "-" | Some r -> hex r) (hex e.ym_ns) (hexl e.ym_features)
-                        (hexl e.ym_deviations)) y.yl_modules in
-  let is = List.map (fun e -> Printf.sprintf "i:%s,%s,%s" (hex e.yi_name) (hex e.yi_rev) (hex e.yi_ns)) y.yl_imponly in
+                        (hexl e.ym_deviations) (show_subs e.ym_submodules)) y.yl_modules in
+  let is = List.map (fun e -> Printf.sprintf "i:%s,%s,%s,%s" (hex e.yi_name) (hex e.yi_rev) (hex e.yi_ns)
+                        (show_subs e.yi_submodules)) y.yl_imponly in
   String.concat "|" (ms @ is)
 let rec drop k l = if k = 0 then l else match l with [] -> [] | _ :: r -> drop (k - 1) r
 
@@ -108,7 +125,7 @@ let run (f : string list) : string =
         let pres = List.filter is_pre rest and recs = List.filter (fun f -> not (is_pre f)) rest in
         let rs = List.map parse_rec recs in
         let src = List.map ymod_of rs in
-        let a = initial_ctx @ List.map ymod_of (List.filter (fun r -> not r.extra) rs) in
+        let a = settle (initial_ctx @ List.map ymod_of (List.filter (fun r -> not r.extra) rs)) in
         let y = describe [] a in
         let c0 = preload src initial_ctx (List.map (parse_pre rs) pres) in
         (match rebuild y src c0 with
